@@ -861,6 +861,11 @@ func (ds *AnySource) ConfigureProjectorsBases(channelIndex int, projectors *mat.
 		return fmt.Errorf("channelIndex out of range, channelIndex=%v, len(ds.processors)=%v", channelIndex, len(ds.processors))
 	}
 	dsp := ds.processors[channelIndex]
+	if dsp.DataPublisher.HasOFF() {
+		// The OFF file of this channel states the model in its header, and every record must have as many
+		// coefficients as that model has components (a record with another number makes the writer fail).
+		return fmt.Errorf("cannot change the projectors of channel %d while its OFF file is being written; stop writing first", channelIndex)
+	}
 	return dsp.SetProjectorsBasis(projectors, basis, modelDescription)
 }
 
